@@ -372,7 +372,7 @@ Section Trace.
     - apply plays_ret.
     - apply plays_bind; [apply Hf; left; auto|]. intros a s1 _.
       eapply plays_conv.
-      + apply plays_bind; [apply IH; intros; apply Hf; right; auto|].
+      + apply plays_bind; [apply IH; intros y s0 Hy; apply Hf; right; auto|].
         intros a2 s2 _. apply plays_ret.
       + apply app_nil_r.
   Qed.
@@ -384,7 +384,7 @@ Section Trace.
     induction l as [|x l IH]; intros Hf s; simpl.
     - apply plays_ret.
     - apply plays_bind; [apply Hf; left; auto|]. intros a s1 _.
-      apply IH. intros; apply Hf; right; auto.
+      apply IH. intros y s0 Hy; apply Hf; right; auto.
   Qed.
 
   Lemma flat_map_nil {A B} (l : list A) : flat_map (fun _ : A => @nil B) l = [].
@@ -2110,7 +2110,7 @@ Section Trace.
       intros Ho. unfold Interp.contract. apply K_get_bind.
       destruct (i_ignore_contract (m_i s)); [apply K_ret|].
       destruct k; try apply K_ret; try apply K_eval_conds.
-      apply K_bind; [|intros; apply K_eval_conds].
+      apply K_bind; [|intros u0 s0 Hu0; apply K_eval_conds].
       destruct inv; [destruct post|]; try apply K_ret; apply K_modify; apply Ho.
     Qed.
 
@@ -2227,10 +2227,10 @@ Section Trace.
                            end) s).
       { destruct (i_eq (m_i s)) as [|[t2 e2] q2]; [apply K_ret|].
         destruct (t2 <=? i_time (m_i s))%Z; [|apply K_ret].
-        apply K_bind; [apply K_put; apply Heq|]. intros; apply K_ret. }
+        apply K_bind; [apply K_put; apply Heq|]. intros u0 s0 Hu0; apply K_ret. }
       destruct (i_iq (m_i s)) as [|[t e] q']; [exact He|].
       destruct (t <=? i_time (m_i s))%Z; [|exact He].
-      apply K_bind; [apply K_put; apply Hiq|]. intros; apply K_ret.
+      apply K_bind; [apply K_put; apply Hiq|]. intros u0 s0 Hu0; apply K_ret.
     Qed.
 
     Lemma K_macro_pre first s :
@@ -3011,17 +3011,17 @@ Section Trace.
     (forall ev s, old_keeps (check_invariants ev) s).
   Proof.
     repeat split.
-    - intros. apply K_run_code. intros c i; reflexivity.
-    - intros. apply K_eval_cond.
+    - intros k o cd ev s. apply K_run_code. intros c i; reflexivity.
+    - intros k o idx cd ev s. apply K_eval_cond.
     - intros k o pre post inv ev s Hk. apply K_same. intros s' r H. eapply contract_keeps; eauto.
     - intros o pre post inv ev s s' r H. apply contract_obs in H.
       destruct H as (new & _ & _ & _ & Ho). exact Ho.
-    - intros. apply K_record_history. intros m i; reflexivity.
-    - intros. apply K_raise_meta.
-    - intros. apply K_raise_event. intros e0 i. unfold queue_event. destruct (e_kind e0); reflexivity.
-    - intros. apply K_compute_steps. intros b i; reflexivity.
-    - intros. apply K_consume_event; intros q i; reflexivity.
-    - intros. apply K_same. intros s' r. apply check_invariants_keeps.
+    - intros active st s. apply K_record_history. intros m i; reflexivity.
+    - intros m s. apply K_raise_meta.
+    - intros e s. apply K_raise_event. intros e0 i. unfold queue_event. destruct (e_kind e0); reflexivity.
+    - intros s. apply K_compute_steps. intros b i; reflexivity.
+    - intros s. apply K_consume_event; intros q i; reflexivity.
+    - intros ev s. apply K_same. intros s' r. apply check_invariants_keeps.
   Qed.
 
   (* ================================================================ the documented wording of the slots *)
@@ -3138,6 +3138,74 @@ Section Trace.
     apply C03_macro_config in H1. destruct H1 as [_ H1]. apply H1; auto.
   Qed.
 
+  (* "even an empty step checks invariants" -- of the unchanged configuration *)
+  Theorem C08_execute_once_empty_config fuel now s s' :
+    execute_once fuel now s = (s', inl None) ->
+    i_config (m_i s') = i_config (m_i s) /\
+    exists new guards r2,
+      m_tr s' = new ++ m_tr s /\
+      calls (rev new) = guards ++ r2 /\
+      Forall guard_ok guards /\
+      realises (ig s) (inv_slots (i_config (m_i s)) None) r2 RDone.
+  Proof.
+    intros H. assert (Hc := C03_macro_config _ _ _ _ _ H). destruct Hc as [Hc _]. simpl in Hc.
+    split; auto. apply C08_execute_once_empty in H.
+    destruct H as (new & gs & r2 & Ht & Ec & Hg & Hr & _). rewrite Hc in Hr.
+    exists new, gs, r2. auto.
+  Qed.
+
+  (* ================================================================ what "a prefix ending with the
+     failing evaluation" means, spelled out for a false condition *)
+  Lemma plays_conds_false k0 o0 ev i cds t k o idx :
+    plays_conds k0 o0 ev i cds t (RFalse k o idx) ->
+    k0 = k /\ o0 = o /\
+    exists n cd, nth_error cds n = Some cd /\ idx = i + n /\ length t = S n.
+  Proof.
+    intros H. remember (RFalse k o idx) as out eqn:Eo.
+    induction H as [i|i cd cds c tr out Hc H IH|i cd cds c Hc|i cd cds c Hc]; try discriminate.
+    - destruct (IH Eo) as (Ek & Eo' & n & cd' & Hn & Ei & Hl).
+      split; auto. split; auto. exists (S n), cd'. simpl. repeat split; auto. lia.
+    - inversion Eo; subst. split; auto. split; auto. exists 0, cd. simpl. repeat split; auto. lia.
+  Qed.
+
+  (* the slot list splits into slots played completely, then the slot SConds k o cds ev in which
+     condition number idx was evaluated to false, then slots that were never started *)
+  Theorem realises_false_inv ig0 sl tr k o idx :
+    realises ig0 sl tr (RFalse k o idx) ->
+    ig0 = false /\
+    exists sl1 cds ev sl2 t1 t2,
+      sl = sl1 ++ SConds k o cds ev :: sl2 /\ tr = t1 ++ t2 /\
+      realises ig0 sl1 t1 RDone /\
+      plays_conds k o ev 0 cds t2 (RFalse k o idx) /\
+      (exists cd, nth_error cds idx = Some cd) /\ length t2 = S idx.
+  Proof.
+    intros H. remember (RFalse k o idx) as out0 eqn:Eo.
+    induction H as [ | sl | k1 o1 cd ev c sent sl tr out1 Hc H1 IH | k1 o1 cd ev c sl Hc
+                     | k1 o1 cds ev sl tr out1 Hig H1 IH | k1 o1 cds ev sl ta tb out1 Hig Hp H1 IH
+                     | k1 o1 cds ev sl ta out1 Hig Hp Hne1 | sl tr out1 H1 IH
+                     | c b sl tr out1 Hk Hi H1 IH | c sl Hk Hi ]; try discriminate.
+    - destruct (IH Eo) as (Eig & sl1 & cds & ev' & sl2 & t1 & t2 & Es & Et & R1 & P2 & Hn & Hl).
+      split; auto. exists (SExec k1 o1 cd ev :: sl1), cds, ev', sl2, (ObExec c (Some sent) :: t1), t2.
+      subst sl tr. repeat split; auto. apply R_exec_ok; auto.
+    - destruct (IH Eo) as (Eig & sl1 & cds' & ev' & sl2 & t1 & t2 & Es & Et & R1 & P2 & Hn & Hl).
+      split; auto. exists (SConds k1 o1 cds ev :: sl1), cds', ev', sl2, t1, t2.
+      subst sl tr. repeat split; auto. apply R_conds_ig; auto.
+    - destruct (IH Eo) as (Eig & sl1 & cds' & ev' & sl2 & t1 & t2 & Es & Et & R1 & P2 & Hn & Hl).
+      split; auto. exists (SConds k1 o1 cds ev :: sl1), cds', ev', sl2, (ta ++ t1), t2.
+      subst sl tb. rewrite app_assoc. repeat split; auto. apply R_conds_ok; auto.
+    - subst out1. split; auto.
+      destruct (plays_conds_false _ _ _ _ _ _ _ _ _ Hp) as (Ek & Eo' & n & cd & Hn & Ei & Hl).
+      subst k1 o1. simpl in Ei. subst n.
+      exists [], cds, ev, sl, [], ta. repeat split; auto. apply R_done. exists cd; auto.
+    - destruct (IH Eo) as (Eig & sl1 & cds' & ev' & sl2 & t1 & t2 & Es & Et & R1 & P2 & Hn & Hl).
+      split; auto. exists (SGuards :: sl1), cds', ev', sl2, t1, t2.
+      subst sl tr. repeat split; auto. apply R_guards_skip; auto.
+    - destruct (IH Eo) as (Eig & sl1 & cds' & ev' & sl2 & t1 & t2 & Es & Et & R1 & P2 & Hn & Hl).
+      split; auto. destruct sl1 as [|x sl1]; [discriminate|]. inversion Es; subst x.
+      exists (SGuards :: sl1), cds', ev', sl2, (ObEval c (Some b) :: t1), t2.
+      subst tr. repeat split; auto. apply R_guards_step; auto.
+  Qed.
+
 End Trace.
 
 (* ------------------------------------------------------------------ assumptions *)
@@ -3151,6 +3219,8 @@ Print Assumptions C03_config_truth.
 Print Assumptions C08_execute_once_run.
 Print Assumptions C08_execute_once_points.
 Print Assumptions C08_execute_once_empty.
+Print Assumptions C08_execute_once_empty_config.
+Print Assumptions realises_false_inv.
 Print Assumptions C03_trace_truth.
 Print Assumptions C03_macro_config.
 Print Assumptions C08_first_failure.
@@ -3206,8 +3276,9 @@ Module TraceExample.
     let s1 := fst (run1 invb ign) in
     let s1' := fst (queue ectx unit (mkEvent External "go" []) s1) in
     mkM (m_i s1') tt [].
-  Definition run2 (invb : list code) (ign : bool) :=
-    execute_once ectx unit ex_exec ex_eval ex_emit (ex_chart invb) 10 1 (start2 invb ign).
+  (* a notation, so that statements about run2 are literally statements about execute_once *)
+  Notation run2 invb ign :=
+    (execute_once ectx unit ex_exec ex_eval ex_emit (ex_chart invb) 10 1 (start2 invb ign)).
 
   Definition summary (x : obs ectx) : string * ckind * owner * nat * option bool :=
     match x with
@@ -3253,6 +3324,26 @@ Module TraceExample.
   Proof. vm_compute. split; reflexivity. Qed.
 
   (* the hypotheses of the theorems are satisfiable: instance of C08_execute_once_points *)
+  Lemma points_instance (sc : chart) fuel now (s : mstate ectx unit) t steps :
+    ig ectx unit s = false ->
+    snd (execute_once ectx unit ex_exec ex_eval ex_emit sc fuel now s) = inl (Some (t, steps)) ->
+    let s' := fst (execute_once ectx unit ex_exec ex_eval ex_emit sc fuel now s) in
+    exists new guards r1 r2,
+      m_tr s' = (new ++ m_tr s)%list /\
+      calls ectx (rev new) = (guards ++ r1 ++ r2)%list /\
+      Forall (guard_ok ectx) guards /\
+      realises ectx false (flat_map (slots_of_micro sc) steps) r1 RDone /\
+      realises ectx false (inv_slots sc (i_config (m_i s')) (macro_event steps)) r2 RDone.
+  Proof.
+    intros Hig H s'.
+    assert (E : execute_once ectx unit ex_exec ex_eval ex_emit sc fuel now s
+                = (s', inl (Some (t, steps)))).
+    { rewrite <- H. apply surjective_pairing. }
+    apply C08_execute_once_points in E. rewrite Hig in E.
+    destruct E as (_ & _ & new & gs & r1 & r2 & Ht & Ec & Hg & R1 & R2 & _).
+    exists new, gs, r1, r2. repeat split; assumption.
+  Qed.
+
   Example ex_points_instance :
     let s := start2 ["ib"] false in
     let s' := fst (run2 ["ib"] false) in
@@ -3261,19 +3352,11 @@ Module TraceExample.
       calls ectx (rev new) = (guards ++ r1 ++ r2)%list /\
       Forall (guard_ok ectx) guards /\
       realises ectx false (flat_map (slots_of_micro (ex_chart ["ib"])) [step_ab]) r1 RDone /\
-      realises ectx false (inv_slots (ex_chart ["ib"]) (i_config (m_i s')) (Some go)) r2 RDone.
+      realises ectx false (inv_slots (ex_chart ["ib"]) (i_config (m_i s')) (macro_event [step_ab])) r2 RDone.
   Proof.
-    intros s s'.
-    pose proof (C08_execute_once_points ectx unit ex_exec ex_eval ex_emit (ex_chart ["ib"]) 10 1
-                  s s' 1%Z [step_ab]) as T.
-    assert (E : snd (run2 ["ib"] false) = inl (Some (1%Z, [step_ab]))) by exact (proj2 ex_run2).
-    change (execute_once ectx unit ex_exec ex_eval ex_emit (ex_chart ["ib"]) 10 1 s)
-      with (run2 ["ib"] false) in T.
-    rewrite <- E in T. specialize (T (surjective_pairing _)).
-    assert (Hig : ig ectx unit s = false) by (vm_compute; reflexivity).
-    rewrite Hig in T. change (macro_event [step_ab]) with (Some go) in T.
-    destruct T as (_ & _ & new & gs & r1 & r2 & Ht & Ec & Hg & R1 & R2 & _).
-    exists new, gs, r1, r2. repeat split; assumption.
+    apply (points_instance (ex_chart ["ib"]) 10 1%Z (start2 ["ib"] false) 1%Z [step_ab]).
+    - vm_compute. reflexivity.
+    - exact (proj2 ex_run2).
   Qed.
 
   Lemma ex_emit_clean : emit_clean unit ex_emit.
